@@ -249,6 +249,7 @@ func checkC06(p *Program, r *Report) {
 	r.Extra["reader_paths"] = len(rs)
 	// a segment's bytes depend on the segment alone: the codec keeps no state between calls
 	receiverReadOnly(p, r, "codec-stateless", "segment", "codec")
+	c06OnlyRefusal(p, r)
 
 	// ---- refusal -----------------------------------------------------------------------------------
 	badRefusal := ""
@@ -759,5 +760,103 @@ func c07Params(p *Program, r *Report) {
 	}
 	for _, f := range pk.Syntax {
 		_ = f
+	}
+}
+
+// c06OnlyRefusal: the segment encoder refuses a segment for one reason only - its (uncompressed)
+// payload is longer than MaxPayloadLength. Every other error it returns wraps the error of a callee
+// (I/O, compressor). An additional self-made refusal rejects payloads the property says must round
+// trip (for instance incompressible payloads near the maximum, which the fallback sends uncompressed).
+func c06OnlyRefusal(p *Program, r *Report) {
+	named := p.LookupType("segment", "codec").Type().(*types.Named)
+	n := 0
+	for _, fn := range p.ModuleFuncs() {
+		recv := fn.Signature.Recv()
+		if recv == nil || namedOf(recv.Type()) != named || !strings.Contains(strings.ToLower(fn.Name()), "encode") || len(fn.Blocks) == 0 {
+			continue
+		}
+		for _, b := range fn.Blocks {
+			ret, ok := b.Instrs[len(b.Instrs)-1].(*ssa.Return)
+			if !ok || len(ret.Results) == 0 {
+				continue
+			}
+			call, ok := ret.Results[len(ret.Results)-1].(*ssa.Call)
+			if !ok {
+				continue
+			}
+			f := call.Call.StaticCallee()
+			if f == nil || (f.String() != "fmt.Errorf" && f.String() != "errors.New") {
+				continue
+			}
+			// wraps a callee's error?
+			wraps := false
+			var walk func(v ssa.Value, d int)
+			walk = func(v ssa.Value, d int) {
+				if d > 6 || wraps {
+					return
+				}
+				switch x := v.(type) {
+				case *ssa.MakeInterface:
+					if isErrorType(x.X.Type()) {
+						wraps = true
+					}
+					walk(x.X, d+1)
+				case *ssa.ChangeInterface:
+					if isErrorType(x.X.Type()) {
+						wraps = true
+					}
+				case *ssa.Slice:
+					walk(x.X, d+1)
+				case *ssa.Alloc:
+					for _, ref := range *x.Referrers() {
+						if ia, ok := ref.(*ssa.IndexAddr); ok {
+							for _, r2 := range *ia.Referrers() {
+								if st, ok := r2.(*ssa.Store); ok {
+									walk(st.Val, d+1)
+								}
+							}
+						}
+					}
+				default:
+					if v != nil && isErrorType(v.Type()) {
+						wraps = true
+					}
+				}
+			}
+			for _, a := range call.Call.Args {
+				walk(a, 0)
+			}
+			if wraps {
+				continue
+			}
+			n++
+			key := fmt.Sprintf("%s refusal#%d", fnKey(fn), n)
+			// the deciding condition
+			okCond := false
+			for d := b; d.Idom() != nil; d = d.Idom() {
+				id := d.Idom()
+				ifi, isIf := id.Instrs[len(id.Instrs)-1].(*ssa.If)
+				if !isIf {
+					continue
+				}
+				if bo, isBo := ifi.Cond.(*ssa.BinOp); isBo && bo.Op == token.GTR && (id.Succs[0] == d || id.Succs[0].Dominates(d)) {
+					if k, isK := bo.Y.(*ssa.Const); isK && k.Value != nil && k.Value.ExactString() == fmt.Sprint(segMaxPayload) {
+						if lc, isCall := bo.X.(*ssa.Call); isCall {
+							if bi, isB := lc.Call.Value.(*ssa.Builtin); isB && bi.Name() == "len" {
+								if strings.HasSuffix(describeVal(lc.Call.Args[0]), "([]byte)") {
+									okCond = true
+								}
+							}
+						}
+					}
+				}
+				break
+			}
+			if okCond {
+				r.OKf("only-refusal", key, ret.Pos(), "refuses payloads longer than MaxPayloadLength")
+			} else {
+				r.Fail("only-refusal", key, ret.Pos(), "%s returns an error of its own that is not the refusal of a payload longer than %d bytes: segments the property requires to round trip are rejected", fn.Name(), segMaxPayload)
+			}
+		}
 	}
 }
